@@ -295,6 +295,10 @@ def history(ctx: Any) -> List[Ob]:
     dels = [n for n in xcfg.nodes if n.kind == 'stmt' and (isinstance(n.ast, ast.Delete) or any(call_name(c) == 'pop' for c in n.calls()))]
     per_entry = bool(age_tests) and all(any(lp_ for lp_ in t.in_loop) for t in age_tests)
     obs.append(ob(R, ex, clears[0] if clears else 'for question, (than, _) in history: if now - than > 999: remove', 'expiry drops exactly the questions last recorded more than 999 ms ago, each judged by its own time (never the whole history at once)', per_entry and not clears and bool(dels), 'the whole history is dropped on the evidence of one entry' if clears else ''))
+    cl = prog.func('zeroconf._engine.AsyncEngine._async_cache_cleanup')
+    hcalls = [c for c in walk_local_ordered(cl.node) if isinstance(c, ast.Call) and isinstance(c.func, ast.Attribute) and 'question_history' in norm(c.func.value)]
+    names_h = [c.func.attr for c in hcalls]
+    obs.append(ob(R, cl, hcalls[0] if hcalls else 'self.zc.question_history.async_expire(now)', 'the periodic clean-up only expires old questions from the history (a question asked or heard less than 999 ms before the tick keeps suppressing)', names_h == ['async_expire'], f'calls on the history: {names_h}'))
     # responder side: what is remembered with a heard question is the union of the known answers of ALL packets of the query
     ar = prog.func('zeroconf._handlers.query_handler.QueryHandler.async_response')
     msgs = ar.params[1]
